@@ -1090,10 +1090,15 @@ static void sc_deleted(struct json_object *o, void *ud)
 	sc_destroyed[(int)(intptr_t)ud]++;
 }
 static int ud_deleted_calls;
+static void *ud_static; /* the user data of the node under test; anything else is a duplicate made by a deep copy */
 static void ud_deleted(struct json_object *o, void *ud)
 {
 	(void)o;
-	(void)ud;
+	if (ud && ud != ud_static)
+	{
+		vf_free(ud);
+		return;
+	}
 	ud_deleted_calls++;
 }
 static int ud_serializer(struct json_object *o, struct printbuf *pb, int level, int flags)
@@ -1238,6 +1243,7 @@ static void fam_scale(void)
 				/* the user data is a real C string (the third installer prints it), its address is the token */
 				static char tokstr[] = "\"user-text\"";
 				void *ud = tokstr;
+				ud_static = ud;
 				if (inst == 0)
 					json_object_set_userdata(x, ud, ud_deleted);
 				else if (inst == 1)
@@ -1302,6 +1308,29 @@ static void fam_scale(void)
 				}
 				if (inst != 1)
 					UD_STEP("to_json_string", (void)json_object_to_json_string(x));
+				{
+					/* a deep copy with the default shallow copy: either it succeeds (the text-holding public
+					 * serializer) or it is refused (user data the library cannot duplicate) - in both cases
+					 * the SOURCE's callback stays quiet and a refused copy leaves nothing behind */
+					struct json_object *cp = NULL;
+					int rc = 0;
+					UD_STEP("deep_copy", rc = json_object_deep_copy(held ? parent : x, &cp, NULL));
+					if (rc == 0 && cp)
+					{
+						if (inst == 2)
+							json_object_put(cp); /* the copy owns a duplicate of the text and frees it itself */
+						else
+						{
+							mc_violation("copy-of-custom-serializer-not-refused", "deep copy of a %s node with user data installed by %s succeeded", kinds[kind], installers[inst]);
+							json_object_put(cp);
+						}
+					}
+					else if (cp)
+					{
+						mc_violation("failed-copy-leaves-destination", "the refused deep copy left a destination object");
+						json_object_put(cp);
+					}
+				}
 				if (held)
 				{
 					UD_STEP("release of the container", json_object_put(parent));
